@@ -43,11 +43,15 @@ type Scenario struct {
 	RetryOn    bool       `json:"retry_on"`
 	NumRetries int        `json:"num_retries"`
 	ReqTimeout bool       `json:"req_timeout,omitempty"` // timeouts travel in the request (bolt frame field / x-mosn-*-timeout headers), route has none
-	Hosts      []string   `json:"hosts"`                 // live | dead (bound, not listening) | rst (accept + RST)
+	Hosts      []string   `json:"hosts"`                 // live | dead (bound, not listening) | rst (accept + RST) | rst-late (accept, RST a little later)
 	Steps      []Step     `json:"steps"`
 	Client     ClientPlan `json:"client"`
 	Special    string     `json:"special,omitempty"` // "" | no-route | no-host
 	Warm       bool       `json:"warm,omitempty"`    // one plain exchange on the same client connection first
+	// FilterDelayUs: a receive stream filter (phase after-choose-host) that takes this long and then continues: upstream
+	// events can arrive between host selection and the first byte of the request (0 = no such filter)
+	FilterDelayUs int `json:"filter_delay_us,omitempty"`
+	RstLateUs     int `json:"rst_late_us,omitempty"` // hosts of kind rst-late: accept, reset this long after accepting
 }
 
 func (s *Scenario) canonical() []byte {
@@ -175,10 +179,14 @@ func genScenario(rt *rapid.T, i int) *Scenario {
 	}
 	n := uni(rt, l("nhosts"), 1, 3)
 	for h := 0; h < n; h++ {
-		sc.Hosts = append(sc.Hosts, weighted(rt, l(fmt.Sprintf("host%d", h)), []string{"live", "dead", "rst"}, []int{74, 16, 10}))
+		sc.Hosts = append(sc.Hosts, weighted(rt, l(fmt.Sprintf("host%d", h)), []string{"live", "dead", "rst", "rst-late"}, []int{70, 14, 8, 8}))
 	}
 	if sc.Special == "no-host" {
 		sc.Hosts = nil
+	}
+	sc.RstLateUs = uni(rt, l("rst_late_us"), 200, 3000)
+	if pct(rt, l("filter_delay"), 25) {
+		sc.FilterDelayUs = uni(rt, l("filter_delay_us"), 300, 4000)
 	}
 	kinds := []string{"reply", "reply5xx", "stall", "partial-stall", "reset", "partial-reset", "fin"}
 	kw := []int{30, 16, 16, 7, 13, 8, 10}
